@@ -222,13 +222,19 @@ def run(tier, seed):
     ps = peers(tier)
     st = par.pmap(work, list(ps.items()), chunk=1)
     hashseed_runs(tier, st)
+    vcases = []
+    osets = optsets()
+    for pname, spec in ps.items():
+        for opts in H.pick(osets, seed + len(vcases), 2 if tier == 'quick' else 6):
+            vcases.append({'label': '%s %s' % (pname, opts), 'opts': list(opts), 'make': (lambda spec=spec: make_server(spec))})
+    validated = H.validate_traces(vcases, st)
     return evidence.finish(
         PID, tier, seed, st, t0,
         rule='%d peers covering every severity mix (clean, warn-only, failures, Terrapin, unknown, gss, small RSA, small/OpenSSH GEX, SSH-1, header, '
              'certificate, compression, non-ASCII banner%s) x all %d combinations of -b, -v, -n, -l {info,warn,fail}, {text,-j,-jj}, each run twice; '
              'fresh interpreters under PYTHONHASHSEED 0/1/2/random for selected peers' % (len(ps), ', 24 database slices' if tier != 'quick' else '', len(optsets())),
         assumptions=['with colours on, a line\'s level is read from its colour', 'JSON compared with text for names the database knows'],
-        exhaustive=True)
+        exhaustive=True, traces_validated=validated)
 
 
 def replay(path):
